@@ -194,10 +194,12 @@ def run(ctx):
         if r.split(' | ')[0].startswith('witness_v'):
             addr_part = py.split(' ', 1)[1] if ' ' in py else ''
             proglen = len(op.split(' ')[2]) // 2 - 2
-            if proglen not in (20, 32) and (addr_part.strip() == '' or addr_part.startswith('address-raises:EncodingError')) and 'lock_script-changed' not in py:
-                # a future witness program whose length is neither 20 nor 32 bytes (C05 quantifies over 20/32-byte payloads): outside the
-                # standard destinations C05 quantifies over; the script itself is kept byte for byte
-                ctx.count('future-witness-program-without-address')
+            if proglen not in (20, 32) and 'lock_script-changed' not in py:
+                # a future witness program whose length is neither 20 nor 32 bytes: outside the standard destinations C05 quantifies over
+                # (20/32-byte payloads); the script itself is kept byte for byte. The library mostly has no address for these
+                # (EncodingError); for a few it reports one that is not the BIP350 address (DESIGN §8.2) - counted, not judged here
+                ctx.count('future-witness-program-without-address' if (addr_part.strip() == '' or addr_part.startswith('address-raises:'))
+                          else 'future-witness-program-other-length-with-some-address')
                 continue
             py = 'witness_v%s %s' % (r.split(' | ')[0].split(' ')[0][9:], addr_part)
         cases2.append((op, py, nt))
